@@ -106,6 +106,17 @@ func runPipe(c *hx.Ctx, wire []byte, cfg pipeCfg, logLevel slog.Level, display b
 	return pr
 }
 
+// fineGrained switches on statement-granularity yields in the concurrent glue
+// packages for one run in five.
+func fineGrained(c *hx.Ctx, s *rt.Sim, o *hx.Outcome) {
+	if c.T.D(5) == 0 {
+		s.EnableStmt(rt.PkgFileHandler, rt.PkgAppCore, rt.PkgApps, rt.PkgProxy, rt.PkgPushback)
+		if o != nil {
+			o.Probe("fine-grained-schedule")
+		}
+	}
+}
+
 func concatRaw(msgs []rtcm.Message) []byte {
 	var b []byte
 	for _, m := range msgs {
